@@ -15,7 +15,10 @@ LEVEL = "proof"
 RULE = ("pairs (Y, X) of code vectors run through the real mutual_info_estimator_numba(int32, int32, float32(1.0), False) and "
         "through the Coq transcription (term structure, vm_compute), the terms evaluated in float64; families: constant, "
         "all-distinct, singleton strata, Zipf skew, equal histograms, Y = X, Y = f(X), sparse codes < 2^20, uniform, noisy copy, "
-        "each also swapped; non-trivial = both sides take >= 2 values and Y != X; distinct = distinct (Y, X, flag)")
+        "each also swapped; plus SCALE families (n = 40 000 .. 200 000, thorough 10^6: all-distinct pairs and self pairs, many "
+        "singleton strata at low codes, distinct(Y) > 65 536, label-sorted / drifting Y against constant and low-cardinality X in "
+        "both argument orders, groups > 32 768 rows, distinct(X)*distinct(Y) > 2^31, rows*distinct(X) > 2^24) regenerated from "
+        "(family, n, seed); non-trivial = both sides take >= 2 values and Y != X; distinct = distinct (Y, X, flag)")
 THEOREMS = ["C01_plugin", "C01_symm", "C01_symm_spec", "C01_nonneg", "C01_const_l", "C01_const_r", "C01_le_min",
             "C01_self", "C01_chain"]
 MODEL_TARGETS = ["MI/Model.vo"]
@@ -552,6 +555,192 @@ def large_supporting(run, pid, flag, sizes=((100000, 50, 30), (1000000, 40, 25))
 
 
 # ---------------------------------------------------------------------------
+# SCALE families: long vectors regenerated from (family, n, seed) on the implementation side (tools/impl/impl_c01_gen.py);
+# expected values from the vectorised transcription np_terms (same file, run under /venv/bin/python because the harness
+# interpreter has no numpy), which is held to the Coq model on the small cases of every run.
+
+SCALE_SIZES = [40000, 65536, 65537, 70000, 131073, 200000]
+SHRINK_SIZES = [5000, 20000, 40000, 47000, 65536, 65537, 70000, 131073, 200000, 500000]
+
+
+def compress(terms):
+    """(n, classes, strata, corr) as printed by `enc`  ->  the compressed form np_terms produces"""
+    n, classes, strata, corr = terms
+    ch, rh, sh = Counter(classes), Counter(), Counter()
+    for cntv, real, spoof in strata:
+        for c in real:
+            rh[(cntv, c)] += 1
+        for c in spoof:
+            sh[(cntv, c)] += 1
+    return {"n": n, "corr": corr, "classes": sorted([c, m] for c, m in ch.items()),
+            "real": sorted([a, c, m] for (a, c), m in rh.items()), "spoof": sorted([a, c, m] for (a, c), m in sh.items())}
+
+
+def eval_float_c(ct):
+    """eval_float on compressed terms (same summands, grouped by multiplicity; math.fsum)"""
+    n = float(ct["n"])
+
+    def cond(lst):
+        ts = [m * ((a / n) * (c / a) * math.log(c / a)) for a, c, m in lst]
+        return -math.fsum(ts), math.fsum(abs(t) for t in ts)
+    cnd, a1 = cond(ct["real"])
+    if ct["corr"]:
+        bg, a2 = cond(ct["spoof"])
+        return -cnd + bg, a1 + a2
+    ts = [m * (-(c / n) * math.log(c / n)) for c, m in ct["classes"]]
+    return math.fsum(ts) - cnd, a1 + math.fsum(abs(t) for t in ts)
+
+
+def scale_specs(pid, rng, tier):
+    """(family, n) grid of the property, a fresh seed per case.  Picked so that each case costs the real code < ~1 s."""
+    g = []
+
+    def add(fam, sizes, flag, **kw):
+        for n in sizes:
+            gen = dict({"fam": fam, "n": n, "seed": rng.randrange(10 ** 6)}, **kw)
+            g.append({"kind": "scale", "gen": gen, "flag": flag})
+    big = [500000, 1000000] if tier == "thorough" else []
+    if pid == "C01":
+        add("ad_ad", SCALE_SIZES + big, False)
+        add("self_ad", [70000, 131073] + big, False)
+        add("self_manyvalues", [70000, 200000], False)
+        add("xsingles_1025", [40000, 65537], False)
+        add("xsingles_1025", [40000], False, swap=True)
+        add("xsingles_4440", [20000, 40000, 131073] + big[:1], False)
+        add("xsingles_4440", [40000], False, swap=True)
+        add("xsingles_70000", [200000] + big, False)
+        add("ycard", [65536, 65537, 70000], False)
+        add("ycard", [70000, 131073], False, swap=True)
+        add("sorted_const", [65537, 200000] + big, False)
+        add("sorted_const", [200000] + big, False, swap=True)
+        add("sorted_lowcard", [131073, 200000] + big, False)
+        add("sorted_lowcard", [200000] + big, False, swap=True)
+        add("drift_lowcard", [70000, 131073] + big, False)
+        add("drift_lowcard", [70000], False, swap=True)
+        add("biggroup", [70000], False)
+        add("prod31", [200000] + big[:1], False)
+    elif pid == "C03":
+        add("ad_ad", [65537, 70000, 200000] + big, True)
+        add("self_ad", [70000] + big, True)
+        add("self_manyvalues", [70000], True)
+        add("ycard", [65536, 65537, 70000, 131073], True)
+        add("biggroup", [65537, 70000, 131073] + big[:1], True)
+        add("biggroup_signal", [70000, 200000] + big, True)
+        add("xsingles_4440", [40000], True)
+        add("xsingles_70000", [200000], True)
+        add("sorted_lowcard", [200000] + big, True)
+        add("sorted_const", [200000], True, swap=True)
+        add("drift_lowcard", [131073], True)
+        add("prod31", [200000], True)
+        if tier == "thorough":
+            add("biggroup_ident", [70000], True)
+            add("biggroup_ident", [70000], False)
+    return g
+
+
+def run_scale_raw(specs, small=()):
+    """-> (impl results, compressed expected terms, stats, compressed np_terms of the small cases)"""
+    from concurrent.futures import ThreadPoolExecutor
+    cases = [{"gen": c["gen"], "flag": c["flag"]} for c in specs]
+    with ThreadPoolExecutor(max_workers=2) as ex:
+        fi = ex.submit(vlib.run_impl, "impl_c01.py", {"cases": cases})
+        fe = ex.submit(vlib.run_impl, "impl_c01_gen.py", {"scale": cases, "small": [{"Y": c["Y"], "X": c["X"], "flag": c["flag"]} for c in small]})
+        impl, exp = fi.result()["results"], fe.result()
+    return impl, exp["scale"], exp["stats"], exp["small"]
+
+
+def compare_c(impl, ct):
+    mv, sabs = eval_float_c(ct)
+    tol = tolerance(sabs)
+    info = {"model": mv, "sum_abs_terms": sabs, "tolerance": tol}
+    if not impl["ok"]:
+        info["impl_error"] = impl["error"]
+        return False, info
+    iv = as_float(impl["v"])
+    info["impl"] = iv
+    if impl.get("mutated_inputs") or math.isnan(iv) or math.isinf(iv):
+        return False, info
+    info["diff"] = abs(iv - mv)
+    info["ratio"] = abs(iv - mv) / (EPS32 * (sabs + 1e-6))
+    return abs(iv - mv) <= tol, info
+
+
+def shrink_scale(spec):
+    """same family and seed at the smaller grid sizes; the smallest n that still fails"""
+    n = spec["gen"]["n"]
+    cands = []
+    for m in SHRINK_SIZES:
+        if m < n:
+            c = {"kind": "scale", "gen": dict(spec["gen"], n=m), "flag": spec["flag"]}
+            cands.append(c)
+    if not cands:
+        return spec
+    try:
+        impl, exp, _, _ = run_scale_raw(cands)
+    except vlib.Broken:
+        return spec
+    for c, r, ct in zip(cands, impl, exp):
+        if not compare_c(r, ct)[0]:
+            return c
+    return spec
+
+
+def np_terms_crosscheck(run, small_cases, small_terms, small_ct):
+    bad = None
+    for c, t, ct in zip(small_cases, small_terms, small_ct):
+        if compress(t) != ct and bad is None:
+            bad = {"case": canon(c), "coq_compressed": compress(t), "np_terms": ct}
+    run.oblige("mirror:np_terms (numpy transcription used for the SCALE families) = compressed Coq terms on %d small cases of this run"
+               % len(small_cases), bad is None, json.dumps(bad)[:400] if bad else "")
+    if bad:
+        run.violation("broken-obligation", "mirror-consistency(np_terms)", found_input=False, extra=bad)
+
+
+def scale_family(run, pid, specs, small_cases, small_terms, clause):
+    """Run the SCALE specs of a property; records obligations, coverage and (shrunk, parameter-only) violations."""
+    if not specs:
+        return
+    impl, exp, st, small_ct = run_scale_raw(specs, small_cases)
+    np_terms_crosscheck(run, small_cases, small_terms, small_ct)
+    nbad, worst, rows = 0, 0.0, []
+    for c, r, ct, s_ in zip(specs, impl, exp, st):
+        ok, info = compare_c(r, ct)
+        run.count_case(["scale", c["gen"], c["flag"]], not s_["identical"] and s_["distinct_X"] > 1 and s_["distinct_Y"] > 1)
+        rows.append(dict(s_, fam=c["gen"]["fam"], swap=bool(c["gen"].get("swap")), flag=c["flag"], ok=ok))
+        if ok:
+            worst = max(worst, info["ratio"])
+            continue
+        nbad += 1
+        if nbad <= 2:
+            small = shrink_scale(c) if nbad == 1 else c
+            if small is not c:
+                i2, e2, _, _ = run_scale_raw([small])
+                ok2, info2 = compare_c(i2[0], e2[0])
+                if ok2:
+                    small = c
+                else:
+                    info = info2
+            run.violation("counterexample", "correspondence on the SCALE families (vectors regenerated from family, n, seed)",
+                          case=small, impl=info.get("impl", info.get("impl_error")),
+                          model={"value": info["model"], "tolerance": info["tolerance"]},
+                          clause=(("the call terminates normally: " + info["impl_error"]) if "impl_error" in info else clause)
+                          + " [family %s, n = %d]" % (small["gen"]["fam"], small["gen"]["n"]))
+    run.oblige("correspondence:SCALE families (n = 40 000 .. 200 000%s), impl = eval(np_terms) within 8*2^-24*(sum|terms|+1e-6)"
+               % (", 10^6 in thorough" if run.tier == "thorough" else ""), nbad == 0,
+               "%d of %d fail" % (nbad, len(specs)) if nbad else "worst %.2f * 2^-24 * (sum|terms|+1e-6)" % worst)
+    run.cov["scale_families"] = rows
+
+
+def pick_small(cases, results, limit=150):
+    sc, stt = [], []
+    for c, (_, _, t) in zip(cases, results):
+        if len(c["Y"]) <= 400 and len(sc) < limit:
+            sc.append(c)
+            stt.append(t)
+    return sc, stt
+
+
+# ---------------------------------------------------------------------------
 
 def check(run, replay):
     ok, log = vlib.build(MODEL_TARGETS)
@@ -560,6 +749,9 @@ def check(run, replay):
         raise vlib.Broken("build:MI/Model.vo", log)
     vlib.standard_proof_phase(run, ["Props/C01.vo"], "Outrank.Props.C01", THEOREMS, allowed=vlib.STD_REAL_AXIOMS)
 
+    if replay is not None and (replay.get("case") or {}).get("kind") == "scale":
+        scale_family(run, "C01", [replay["case"]], [], [], "score(Y, X, 1.0, False) = plug-in MI(Y; X)")
+        return
     if replay is not None:
         cases = [replay["case"]]
     else:
@@ -579,6 +771,10 @@ def check(run, replay):
                         obligation="correspondence:impl = eval(model terms) within 8*2^-24*(sum|terms|+1e-6)")
     run.cov["input_distribution"] = hist
     run.cov["exhaustive"] = False
+    if replay is None:
+        sc, stt = pick_small(cases, results)
+        scale_family(run, "C01", scale_specs("C01", run.rng, run.tier), sc, stt,
+                     "score(Y, X, 1.0, False) = plug-in MI(Y; X) up to single-precision rounding")
     if run.tier == "thorough" and replay is None:
         run.cov["exhaustive_small_scope"] = "all pairs of length <= 5 over 3 codes (66429 pairs) included"
         large_supporting(run, "C01", False)
@@ -596,5 +792,8 @@ def check(run, replay):
         "harness: tools/props/c01.py (generators, eval_float = 25-line float64 mirror of MI/Model.v eval_R, tolerance), "
         "tools/impl/impl_c01.py (calls the real mutual_info_estimator_numba on int32 arrays)",
         "coqparse.py (reads the terms coqc prints)",
+        "tools/impl/impl_c01_gen.py: generators of the SCALE families and np_terms, the numpy transcription of the model that gives "
+        "their expected term structures (the Coq model is quadratic); np_terms is compared with the Coq terms on the small cases of "
+        "every run",
         "numba/LLVM code generation, fastmath, float32/float64 arithmetic: modelled by the tolerance, not verified",
     ]
